@@ -83,10 +83,10 @@ func specTimeout(ms int) time.Duration { return time.Duration(ms) * time.Millise
 //@ func getIntParam
 //@ inline
 //@ safety C19
-//@ ensures[C19.int.wire]     specPresent(query, key) ==> ret0 == (err == nil ? val : defaultValue)
-//@ ensures[C19.int.default]  !specPresent(query, key) ==> ret0 == defaultValue
+//@ ensures[C19+C15.int.wire]     specPresent(query, key) ==> ret0 == (err == nil ? val : defaultValue)
+//@ ensures[C19+C15.int.default]  !specPresent(query, key) ==> ret0 == defaultValue
 //@ modifies nothing
-//@ ensures[C19.int.value]  ret0 == specInt(query, key, defaultValue)
+//@ ensures[C19+C15.int.value]  ret0 == specInt(query, key, defaultValue)
 //   by: strconv.Atoi is "pure-lib (result unconstrained, no heap effect)": every call, including the one in
 //   specInt, yields fresh unrelated values, so the counterexample picks different results for the same string.
 
@@ -124,9 +124,9 @@ func specTimeout(ms int) time.Duration { return time.Duration(ms) * time.Millise
 //@ ensures[C19.parse.proto]    ret1 == nil ==> ret0.Protocol == specStr(query, "protocol", common.DefaultProtocol)
 //@ ensures[C19.parse.tcpm]     ret1 == nil ==> ret0.TCPMethod == traceroute.TCPMethod(specStr(query, "tcp-method", common.DefaultTcpMethod))
 //@ ensures[C19.parse.port]     ret1 == nil ==> ret0.Port == port && (!specPresent(query, "port") ==> ret0.Port == common.DefaultPort)
-//@ ensures[C19.parse.queries]  ret1 == nil ==> ret0.TracerouteQueries == tracerouteQueries && (!specPresent(query, "traceroute-queries") ==> ret0.TracerouteQueries == common.DefaultTracerouteQueries)
+//@ ensures[C19+C15.parse.queries]  ret1 == nil ==> ret0.TracerouteQueries == tracerouteQueries && (!specPresent(query, "traceroute-queries") ==> ret0.TracerouteQueries == common.DefaultTracerouteQueries)
 //@ ensures[C19.parse.maxttl]   ret1 == nil ==> ret0.MaxTTL == maxTTL && (!specPresent(query, "max-ttl") ==> ret0.MaxTTL == common.DefaultMaxTTL)
-//@ ensures[C19.parse.e2e]      ret1 == nil ==> ret0.E2eQueries == e2eQueries && (!specPresent(query, "e2e-queries") ==> ret0.E2eQueries == common.DefaultNumE2eProbes)
+//@ ensures[C19+C15.parse.e2e]      ret1 == nil ==> ret0.E2eQueries == e2eQueries && (!specPresent(query, "e2e-queries") ==> ret0.E2eQueries == common.DefaultNumE2eProbes)
 //@ ensures[C19.parse.timeout]  ret1 == nil ==> ret0.Timeout == specTimeout(timeoutMs) && (!specPresent(query, "timeout") ==> ret0.Timeout == specTimeout(common.DefaultNetworkPathTimeout))
 //@ ensures[C19.parse.v6]       ret1 == nil ==> ret0.WantV6 == wantV6 && (!specPresent(query, "ipv6") ==> ret0.WantV6 == common.DefaultWantV6)
 //@ ensures[C19.parse.rdns]     ret1 == nil ==> ret0.ReverseDns == reverseDns && (!specPresent(query, "reverse-dns") ==> ret0.ReverseDns == common.DefaultReverseDns)
